@@ -272,4 +272,53 @@ def gen_icecandstr():
     return m
 
 
-MODULES = {"IcePrio": gen_iceprio, "StunCodes": gen_stuncodes, "IceCandStr": gen_icecandstr}
+TURN = "src/transports/ice/turn.rs"
+
+
+def gen_turnconsts():
+    """TURN Allocate request shape (TurnClient::allocate) and the long-term key format (long_term_key)"""
+    m = Module("TurnConsts")
+    m.add_const(TURN, "DEFAULT_TURN_LIFETIME")
+    src = strip_comments(read(TURN))
+    _, _, al = find_fn(src, "allocate", "TurnClient")
+    base = re.search(r"let\s+attrs\s*=\s*vec!\[\s*StunAttribute::RequestedTransport\((\d+)\),\s*StunAttribute::Lifetime\(DEFAULT_TURN_LIFETIME\),\s*\];", al)
+    ext = re.search(r"extended\.push\(StunAttribute::Username\(creds\.username\.clone\(\)\)\);\s*"
+                    r"extended\.push\(StunAttribute::Realm\(info\.realm\.clone\(\)\)\);\s*"
+                    r"extended\.push\(StunAttribute::Nonce\(info\.nonce\.clone\(\)\)\);\s*"
+                    r"let\s+msg\s*=\s*StunMessage::allocate_request\(tx_id,\s*extended\);", al)
+    key = re.search(r"let\s+key\s*=\s*long_term_key\(&creds\.username,\s*&info\.realm,\s*&creds\.password\);", al)
+    enc = re.search(r"message\.encode\(key_option\.as_deref\(\),\s*true\)", al)
+    if not (base and ext and key and enc):
+        raise Untranslatable("TurnClient::allocate: request shape changed")
+    m.raw("Definition TURN_REQUESTED_TRANSPORT : Z := %s." % base.group(1), "TurnClient::allocate REQUESTED-TRANSPORT", TURN)
+    _, _, lk = find_fn(src, "long_term_key")
+    f = re.search(r'format!\("([^"]*)",\s*username,\s*realm,\s*password\)', lk)
+    if not f or f.group(1).count("{}") != 3 or "md5_digest(input.as_bytes())" not in lk:
+        raise Untranslatable("long_term_key: format changed")
+    parts = f.group(1).split("{}")
+    if parts[0] != "" or parts[3] != "" or parts[1] != parts[2] or len(parts[1]) != 1:
+        raise Untranslatable("long_term_key: separator shape changed: %r" % parts)
+    m.raw("Definition LONG_TERM_KEY_SEP : Z := %d." % ord(parts[1]), "long_term_key separator", TURN)
+    # Refresh with LIFETIME=0 (create_destroy_packet_sync) and the STUN probe of the gatherer
+    _, _, ds = find_fn(src, "create_destroy_packet_sync", "TurnClient")
+    d = re.search(r"let\s+attributes\s*=\s*vec!\[\s*StunAttribute::Lifetime\((\d+)\),\s*StunAttribute::Username\(auth\.username\.clone\(\)\),\s*"
+                  r"StunAttribute::Realm\(auth\.realm\.clone\(\)\),\s*StunAttribute::Nonce\(auth\.nonce\.clone\(\)\),\s*\];", ds)
+    if not d or "method: StunMethod::Refresh" not in ds or "class: StunClass::Request" not in ds or "msg.encode(Some(&auth.key), true)" not in ds:
+        raise Untranslatable("create_destroy_packet_sync: shape changed")
+    m.raw("Definition TURN_DESTROY_LIFETIME : Z := %s." % d.group(1), "create_destroy_packet_sync LIFETIME", TURN)
+    isrc = strip_comments(read(ICE))
+    _, _, ps = find_fn(isrc, "probe_stun")
+    sw = re.search(r'StunMessage::binding_request\(tx_id,\s*Some\("([^"]*)"\)\);\s*let\s+bytes\s*=\s*message\.encode\(None,\s*true\)', ps)
+    if not sw:
+        raise Untranslatable("probe_stun: request shape changed")
+    _, _, br = find_fn(strip_comments(read(STUN)), "binding_request", "StunMessage")
+    if "StunAttribute::Software(name.to_string())" not in br or "class: StunClass::Request" not in br or "method: StunMethod::Binding" not in br:
+        raise Untranslatable("StunMessage::binding_request: shape changed")
+    m.raw("Definition PROBE_SOFTWARE : list Z := %s." % _bytes(sw.group(1)), "probe_stun SOFTWARE", ICE)
+    _, _, md = find_fn(src, "md5_digest")
+    if "Md5::new()" not in md:
+        raise Untranslatable("md5_digest does not use Md5")
+    return m
+
+
+MODULES = {"IcePrio": gen_iceprio, "StunCodes": gen_stuncodes, "IceCandStr": gen_icecandstr, "TurnConsts": gen_turnconsts}
